@@ -60,6 +60,11 @@ Proof. unfold nload. rewrite filter_app, app_length. reflexivity. Qed.
 Lemma nload_cons k t p : nload k (t :: p) = (b2n (is_load k t) + nload k p)%nat.
 Proof. unfold nload. cbn [filter]. destruct (is_load k t); reflexivity. Qed.
 
+Lemma nload_nil k : nload k [] = 0%nat.
+Proof. reflexivity. Qed.
+Lemma nload_one k t : nload k [t] = b2n (is_load k t).
+Proof. unfold nload. cbn [filter]. destruct (is_load k t); reflexivity. Qed.
+
 Lemma loads_ok_snoc m p : forall d t,
   loads_ok m d (p ++ [t]) <-> loads_ok m d p /\ load_cond m (apply_tasks p d) t.
 Proof.
@@ -106,14 +111,21 @@ Definition pc_ok (w : list Z) (p : pcs) : Prop :=
   | PSaveJ k v => ks_mem k w = true
   end.
 
+Definition run_of (s : wstatus) : list task := match s with WRun t => [t] | _ => [] end.
+Definition deadb (s : wstatus) : bool := match s with WDying | WDead => true | _ => false end.
+Lemma pending_eq st : pending st = run_of (t_status st) ++ t_queue st.
+Proof. reflexivity. Qed.
+Lemma dead_eq st : dead st = deadb (t_status st).
+Proof. reflexivity. Qed.
+
 Definition LInv (prog0 : list s_op) (st : tstate) : Prop :=
   exists m,
-    t_unfinished st = length (pending st) /\
-    dead st = false /\
-    (forall k, d_get k (apply_tasks (pending st) (t_disk st)) = d_get k m) /\
-    (forall k, (nload k (pending st) + nload k (pcq (t_pc st)) + b2n (d_has k (t_loaded st))
+    t_unfinished st = length (run_of (t_status st) ++ t_queue st) /\
+    deadb (t_status st) = false /\
+    (forall k, d_get k (apply_tasks (run_of (t_status st) ++ t_queue st) (t_disk st)) = d_get k m) /\
+    (forall k, (nload k (run_of (t_status st) ++ t_queue st) + nload k (pcq (t_pc st)) + b2n (d_has k (t_loaded st))
                 = b2n (ks_mem k (t_waiting st)))%nat) /\
-    loads_ok m (t_disk st) (pending st) /\
+    loads_ok m (t_disk st) (run_of (t_status st) ++ t_queue st) /\
     (forall k v, d_get k (t_loaded st) = Some v -> d_has k m = true -> d_get k m = Some v) /\
     pc_ok (t_waiting st) (t_pc st) /\
     rev (t_outs st) ++ spec_outs m (cur_op (t_pc st) ++ t_prog st) = spec_outs [] prog0 /\
@@ -121,9 +133,11 @@ Definition LInv (prog0 : list s_op) (st : tstate) : Prop :=
 
 Lemma LInv_init prog : wf [] prog = true -> LInv prog (init prog).
 Proof.
-  intros Hwf. exists []. unfold init, pending, dead; cbn.
+  intros Hwf. exists []. unfold init, run_of, deadb; cbn.
   repeat split; try reflexivity; try exact Hwf; try exact I. intros k v H. discriminate.
 Qed.
+
+Ltac splits9 := split; [|split; [|split; [|split; [|split; [|split; [|split; [|split]]]]]]].
 
 Ltac b2n_lia :=
   repeat match goal with
@@ -137,21 +151,21 @@ Lemma worker_LInv prog0 st st' :
 Proof.
   destruct st as [disk q u s n l w pc prog outs].
   intros (m & HU & Hal & H0 & H1 & H2 & H3 & Hpc & HJ & Hwf).
-  unfold pending, dead in *. cbn [t_unfinished t_status t_queue t_disk t_loaded t_waiting t_pc t_prog t_outs] in *.
+  cbn [t_unfinished t_status t_queue t_disk t_loaded t_waiting t_pc t_prog t_outs] in *.
   unfold worker_step. cbn [t_status t_queue t_unfinished t_started t_disk t_loaded].
-  destruct s as [|t| |]; try discriminate.
+  destruct s as [|t| |]; unfold run_of, deadb in *; try discriminate.
   - (* take the next task *)
     destruct q as [|t q']; [discriminate|]. intros E. injection E as <-.
-    exists m. unfold pending, dead, set_worker.
+    exists m. unfold run_of, deadb, set_worker.
     cbn [t_unfinished t_status t_queue t_disk t_loaded t_waiting t_pc t_prog t_outs app] in *.
-    repeat split; assumption.
+    splits9; assumption.
   - (* run it *)
     cbn [app] in *. destruct H2 as [Hc H2].
     destruct t as [k|k v|k]; cbn [exec_task].
     + cbn [load_cond] in Hc. destruct Hc as [Hd Hm].
       unfold d_has in Hd. destruct (d_get k disk) as [v|] eqn:E; [|discriminate].
       intros E2. injection E2 as <-.
-      exists m. unfold pending, dead, set_worker.
+      exists m. unfold run_of, deadb, set_worker.
       cbn [t_unfinished t_status t_queue t_disk t_loaded t_waiting t_pc t_prog t_outs app].
       split; [cbn [length] in HU; lia|]. split; [reflexivity|]. split; [exact H0|]. split.
       { intros k'. specialize (H1 k'). rewrite nload_cons in H1. cbn [is_load] in H1.
@@ -160,18 +174,485 @@ Proof.
         - rewrite (Z.eqb_sym k k'), E3 in H1. cbn [orb b2n] in *. lia. }
       split; [exact H2|]. split; [|tauto].
       intros k' v' Hg Hh. destruct (Z.eq_dec k' k) as [->|Hne].
-      * rewrite d_get_set_eq in Hg. injection Hg as <-. rewrite <- (Hm Hh). exact E.
+      * rewrite d_get_set_eq in Hg. injection Hg as <-. rewrite <- (Hm Hh). reflexivity.
       * rewrite d_get_set_neq in Hg by exact Hne. apply H3; assumption.
     + intros E2. injection E2 as <-.
-      exists m. unfold pending, dead, set_worker.
+      exists m. unfold run_of, deadb, set_worker.
       cbn [t_unfinished t_status t_queue t_disk t_loaded t_waiting t_pc t_prog t_outs app].
       split; [cbn [length] in HU; lia|]. split; [reflexivity|]. split; [exact H0|]. split.
       { intros k'. specialize (H1 k'). rewrite nload_cons in H1. cbn [is_load b2n] in H1. lia. }
       tauto.
     + intros E2. injection E2 as <-.
-      exists m. unfold pending, dead, set_worker.
+      exists m. unfold run_of, deadb, set_worker.
       cbn [t_unfinished t_status t_queue t_disk t_loaded t_waiting t_pc t_prog t_outs app].
       split; [cbn [length] in HU; lia|]. split; [reflexivity|]. split; [exact H0|]. split.
       { intros k'. specialize (H1 k'). rewrite nload_cons in H1. cbn [is_load b2n] in H1. lia. }
       tauto.
+Qed.
+
+(* ---- the caller *)
+Ltac projs := cbn [t_unfinished t_status t_queue t_disk t_loaded t_waiting t_pc t_prog t_outs t_started].
+Ltac projs_in H := cbn [t_unfinished t_status t_queue t_disk t_loaded t_waiting t_pc t_prog t_outs t_started] in H.
+
+Lemma J_step m op rest outs prog0 (o : t_out) :
+  rev outs ++ spec_outs m (op :: rest) = spec_outs [] prog0 -> o = spec_out m op ->
+  rev (o :: outs) ++ spec_outs (spec_m m op) rest = spec_outs [] prog0.
+Proof.
+  intros H ->. cbn [rev]. rewrite <- app_assoc. cbn [app]. exact H.
+Qed.
+
+(* Queue.put succeeds: the task held by the program counter enters the queue *)
+Lemma fire_LInv prog0 disk q u s n l w t c prog outs :
+  LInv prog0 (mkT disk q u s n l w (PPut t c) prog outs) ->
+  LInv prog0 (continue (enqueue (mkT disk q u s n l w (PPut t c) prog outs) t) c).
+Proof.
+  intros (m & HU & Hal & H0 & H1 & H2 & H3 & Hpc & HJ & Hwf).
+  projs_in HU. projs_in Hal. projs_in H0. projs_in H1. projs_in H2. projs_in H3. projs_in Hpc. projs_in HJ. projs_in Hwf.
+  set (P := run_of s ++ q) in *.
+  assert (EP : run_of s ++ q ++ [t] = P ++ [t]) by (unfold P; apply app_assoc).
+  destruct t as [k|k v|k]; cbn [pc_ok pcq cur_op] in *.
+  - (* a load *)
+    assert (Hk : d_has k m = true /\ wf m prog = true /\
+                 rev outs ++ spec_outs m ((if match c with KDone => true | _ => false end then SPreload k else SLoad k) :: prog) = spec_outs [] prog0).
+    { destruct c; cbn [app wf spec_m] in *; apply andb_true_iff in Hwf; tauto. }
+    destruct Hk as (Hkm & Hwf' & HJ').
+    assert (Hcommon :
+      S u = length (P ++ [TLoad k]) /\
+      (forall k', d_get k' (apply_tasks (P ++ [TLoad k]) disk) = d_get k' m) /\
+      (forall k', (nload k' (P ++ [TLoad k]) + 0 + b2n (d_has k' l) = b2n (ks_mem k' w))%nat) /\
+      loads_ok m disk (P ++ [TLoad k])).
+    { split; [rewrite app_length; cbn [length]; lia|]. split; [|split].
+      - intros k'. rewrite apply_tasks_snoc. cbn [apply_task]. apply H0.
+      - intros k'. rewrite nload_snoc. specialize (H1 k'). lia.
+      - apply loads_ok_snoc. split; [exact H2|]. cbn [load_cond]. unfold d_has in *. rewrite H0. tauto. }
+    destruct Hcommon as (C1 & C3 & C4 & C5).
+    destruct Hpc as [->| ->].
+    + exists m. unfold continue, finish, enqueue. projs. rewrite EP. cbn [pcq cur_op pc_ok]. splits9;
+        [exact C1|exact Hal|exact C3|exact C4|exact C5|exact H3|exact I| |exact Hwf'].
+      apply (J_step m (SPreload k) prog outs prog0 TOk HJ'). reflexivity.
+    + exists m. unfold continue, set_pc, enqueue. projs. rewrite EP. cbn [pcq cur_op pc_ok]. splits9;
+        [exact C1|exact Hal|exact C3|exact C4|exact C5|exact H3| |exact HJ|exact Hwf].
+      specialize (H1 k). rewrite nload_one in H1. cbn [is_load] in H1. rewrite Z.eqb_refl in H1.
+      destruct (ks_mem k w); [reflexivity|]. cbn [b2n] in H1. lia.
+  - (* a save *)
+    destruct Hpc as [-> Hw]. cbn [app wf spec_m] in Hwf.
+    assert (Hn : nload k P = 0%nat /\ d_has k l = false).
+    { specialize (H1 k). rewrite Hw in H1. cbn [b2n] in H1. destruct (d_has k l); cbn [b2n] in H1; [lia|]. split; [lia|reflexivity]. }
+    destruct Hn as [Hn Hl].
+    exists (d_set k v m). unfold continue, finish, enqueue. projs. rewrite EP. cbn [pcq cur_op pc_ok]. splits9.
+    + rewrite app_length; cbn [length]; lia.
+    + exact Hal.
+    + intros k'. rewrite apply_tasks_snoc. apply (apply_task_cong (TSave k v)). exact H0.
+    + intros k'. rewrite nload_snoc. specialize (H1 k'). rewrite ?nload_one, ?nload_nil in *. cbn [is_load b2n] in *. lia.
+    + apply loads_ok_snoc. split; [|exact I]. apply (loads_ok_change_m m); [|exact H2].
+      intros k' Hpos Hh. assert (k' <> k) by (intros ->; lia).
+      rewrite d_has_set in Hh. rewrite d_get_set_neq by assumption.
+      destruct (k' =? k) eqn:E; [lia|]. cbn [orb] in Hh. split; [exact Hh|reflexivity].
+    + intros k' v' Hg Hh. destruct (Z.eq_dec k' k) as [->|Hne].
+      * unfold d_has in Hl. rewrite Hg in Hl. discriminate.
+      * rewrite d_has_set in Hh. rewrite d_get_set_neq by exact Hne. apply H3; [exact Hg|].
+        destruct (k' =? k) eqn:E; [lia|exact Hh].
+    + exact I.
+    + apply (J_step m (SSave k v) prog outs prog0 TOk HJ). reflexivity.
+    + exact Hwf.
+  - (* a delete *)
+    subst c. cbn [app wf spec_m] in Hwf. apply andb_true_iff in Hwf. destruct Hwf as [_ Hwf].
+    exists (d_del k m). unfold continue, finish, enqueue. projs. rewrite EP. cbn [pcq cur_op pc_ok]. splits9.
+    + rewrite app_length; cbn [length]; lia.
+    + exact Hal.
+    + intros k'. rewrite apply_tasks_snoc. apply (apply_task_cong (TDelete k)). exact H0.
+    + intros k'. rewrite nload_snoc. specialize (H1 k'). rewrite ?nload_one, ?nload_nil in *. cbn [is_load b2n] in *. lia.
+    + apply loads_ok_snoc. split; [|exact I]. apply (loads_ok_change_m m); [|exact H2].
+      intros k' _ Hh. rewrite d_has_del in Hh. rewrite d_get_del.
+      destruct (k' =? k) eqn:E; [discriminate|]. cbn [negb andb] in Hh. split; [exact Hh|reflexivity].
+    + intros k' v' Hg Hh. rewrite d_has_del in Hh. rewrite d_get_del.
+      destruct (k' =? k) eqn:E; [discriminate|]. apply H3; assumption.
+    + exact I.
+    + apply (J_step m (SDelete k) prog outs prog0 TOk HJ). reflexivity.
+    + exact Hwf.
+Qed.
+
+(* the value is there: ThreadedStorage.load returns it and forgets it *)
+Lemma finish_load_LInv prog0 disk q u s n l w pc k v prog outs :
+  pcq pc = [] -> cur_op pc = [SLoad k] -> d_get k l = Some v ->
+  LInv prog0 (mkT disk q u s n l w pc prog outs) ->
+  LInv prog0 (finish (set_loaded_waiting (mkT disk q u s n l w pc prog outs) (d_del k l) (ks_del k w)) (TVal v)).
+Proof.
+  intros Epq Ecur Hg (m & HU & Hal & H0 & H1 & H2 & H3 & Hpc & HJ & Hwf).
+  projs_in HU. projs_in Hal. projs_in H0. projs_in H1. projs_in H2. projs_in H3. projs_in Hpc. projs_in HJ. projs_in Hwf.
+  rewrite Ecur in HJ, Hwf. rewrite Epq in H1. cbn [app wf spec_m] in HJ, Hwf.
+  apply andb_true_iff in Hwf. destruct Hwf as [Hkm Hwf].
+  assert (Hl : d_has k l = true) by (unfold d_has; rewrite Hg; reflexivity).
+  exists m. unfold finish, set_loaded_waiting. projs. cbn [pcq cur_op pc_ok app]. splits9.
+  - exact HU.
+  - exact Hal.
+  - exact H0.
+  - intros k'. specialize (H1 k'). rewrite nload_nil in *. rewrite d_has_del, ks_mem_del.
+    destruct (k' =? k) eqn:E; cbn [negb andb].
+    + replace k' with k in * by lia. rewrite Hl in H1. cbn [b2n] in *. destruct (ks_mem k w); cbn [b2n] in *; lia.
+    + exact H1.
+  - exact H2.
+  - intros k' v' Hg' Hh. rewrite d_get_del in Hg'. destruct (k' =? k); [discriminate|]. apply H3; assumption.
+  - exact I.
+  - apply (J_step m (SLoad k) prog outs prog0 (TVal v) HJ). cbn [spec_out]. rewrite (H3 k v Hg Hkm). reflexivity.
+  - exact Hwf.
+Qed.
+
+Lemma do_put_alive qmax st t c : deadb (t_status st) = false ->
+  do_put qmax st t c = if has_space qmax st then continue (enqueue (set_pc st (PPut t c)) t) c
+                       else set_pc st (PPut t c).
+Proof.
+  intros H. unfold do_put. rewrite dead_eq, H. destruct (has_space qmax st); [|reflexivity].
+  destruct st, c; reflexivity.
+Qed.
+
+Lemma put_LInv qmax prog0 disk q u s n l w t c prog outs pc0 :
+  deadb s = false ->
+  LInv prog0 (mkT disk q u s n l w (PPut t c) prog outs) ->
+  LInv prog0 (do_put qmax (mkT disk q u s n l w pc0 prog outs) t c).
+Proof.
+  intros Hal H. rewrite do_put_alive by exact Hal. unfold set_pc. projs.
+  destruct (has_space qmax _); [apply fire_LInv|]; exact H.
+Qed.
+
+Lemma space_when_empty qmax st : t_queue st = [] -> has_space qmax st = true.
+Proof. intros E. unfold has_space. rewrite E. destruct qmax; reflexivity. Qed.
+
+Lemma caller_LInv qmax prog0 st st' :
+  LInv prog0 st -> caller_step qmax st = Some st' -> LInv prog0 st'.
+Proof.
+  destruct st as [disk q u s n l w pc prog outs]. intros HI.
+  assert (HI' := HI).
+  destruct HI' as (m & HU & Hal & H0 & H1 & H2 & H3 & Hpc & HJ & Hwf).
+  projs_in HU. projs_in Hal. projs_in H0. projs_in H1. projs_in H2. projs_in H3. projs_in Hpc. projs_in HJ. projs_in Hwf.
+  unfold caller_step. projs. destruct pc as [|t c|k|k|k v].
+  - (* start the next operation *)
+    destruct prog as [|op rest]; [discriminate|]. intros E. injection E as <-.
+    cbn [pcq cur_op pc_ok app] in *. unfold set_prog. projs.
+    destruct op as [k|k|k v|k]; unfold start_op; projs; unfold set_loaded_waiting, set_pc; projs.
+    + (* load *)
+      cbn [wf] in Hwf.
+      destruct (negb (d_has k l) && negb (ks_mem k w)) eqn:Ec.
+      * apply put_LInv; [exact Hal|]. apply andb_true_iff in Ec. destruct Ec as [Ec1 Ec2].
+        apply negb_true_iff in Ec1. apply negb_true_iff in Ec2.
+        exists m. projs. cbn [pcq cur_op pc_ok app]. splits9; try assumption; [|right; reflexivity].
+        intros k'. specialize (H1 k'). rewrite nload_nil in H1. rewrite nload_one, ks_mem_add. cbn [is_load].
+        destruct (k =? k') eqn:E; cbn [orb b2n]; [|first [exact H1|lia]].
+        replace k' with k in * by lia. rewrite Ec1, Ec2 in H1. rewrite Ec1. cbn [b2n] in *. lia.
+      * exists m. projs. cbn [pcq cur_op pc_ok app]. splits9; try assumption.
+        specialize (H1 k). destruct (d_has k l); cbn [negb andb b2n] in *.
+        -- destruct (ks_mem k w); [reflexivity|]. cbn [b2n] in H1. lia.
+        -- destruct (ks_mem k w); [reflexivity|discriminate].
+    + (* preload *)
+      cbn [wf spec_m] in Hwf.
+      destruct (ks_mem k w || d_has k l) eqn:Ec.
+      * exists m. unfold finish. projs. cbn [pcq cur_op pc_ok app]. splits9; try assumption; [ | ].
+        -- apply (J_step m (SPreload k) rest outs prog0 TOk HJ). reflexivity.
+        -- apply andb_true_iff in Hwf. tauto.
+      * apply put_LInv; [exact Hal|]. apply orb_false_iff in Ec. destruct Ec as [Ec2 Ec1].
+        exists m. projs. cbn [pcq cur_op pc_ok app]. splits9; try assumption; [|left; reflexivity].
+        intros k'. specialize (H1 k'). rewrite nload_nil in H1. rewrite nload_one, ks_mem_add. cbn [is_load].
+        destruct (k =? k') eqn:E; cbn [orb b2n]; [|first [exact H1|lia]].
+        replace k' with k in * by lia. rewrite Ec1, Ec2 in H1. rewrite Ec1. cbn [b2n] in *. lia.
+    + (* save *)
+      destruct (ks_mem k w) eqn:Ec.
+      * rewrite dead_eq. projs. rewrite Hal.
+        exists m. projs. cbn [pcq cur_op pc_ok app]. splits9; assumption.
+      * apply put_LInv; [exact Hal|].
+        exists m. projs. cbn [pcq cur_op pc_ok app]. splits9; try assumption.
+        all: try (split; [reflexivity|exact Ec]).
+        all: intros k'; specialize (H1 k'); rewrite nload_nil in H1; rewrite nload_one; cbn [is_load b2n]; first [exact H1|lia].
+    + (* delete *)
+      apply put_LInv; [exact Hal|].
+      exists m. projs. cbn [pcq cur_op pc_ok app]. splits9; try assumption.
+      all: try reflexivity.
+      all: intros k'; specialize (H1 k'); rewrite nload_nil in H1; rewrite nload_one; cbn [is_load b2n]; first [exact H1|lia].
+  - (* Queue.put gets its slot *)
+    destruct (has_space qmax _); [|discriminate]. intros E. injection E as <-.
+    apply fire_LInv. exact HI.
+  - (* load: is the value there? *)
+    intros E. injection E as <-. cbn [pc_ok] in Hpc.
+    destruct (d_has k l) eqn:Ec.
+    + unfold finish_load. projs. unfold d_has in Ec. destruct (d_get k l) as [v|] eqn:Eg; [|discriminate].
+      apply finish_load_LInv; [reflexivity|reflexivity|exact Eg|exact HI].
+    + rewrite dead_eq. projs. rewrite Hal. unfold set_pc. projs.
+      exists m. projs. cbn [pcq cur_op pc_ok app] in *. splits9; assumption.
+  - (* load: Queue.join returns *)
+    destruct (Nat.eqb u 0) eqn:Eu; [|discriminate]. intros E. injection E as <-.
+    apply Nat.eqb_eq in Eu. subst u. cbn [pc_ok pcq] in *.
+    assert (EP : run_of s ++ q = []) by (destruct (run_of s ++ q); [reflexivity|discriminate]).
+    rewrite dead_eq. projs. rewrite Hal. unfold finish_load. projs.
+    specialize (H1 k). rewrite EP, Hpc, !nload_nil in H1. cbn [b2n] in H1.
+    unfold d_has in H1. destruct (d_get k l) as [v|] eqn:Eg; [|cbn [b2n] in H1; lia].
+    apply finish_load_LInv; [reflexivity|reflexivity|exact Eg|exact HI].
+  - (* save over an outstanding preload: Queue.join returns *)
+    destruct (Nat.eqb u 0) eqn:Eu; [|discriminate]. intros E. injection E as <-.
+    apply Nat.eqb_eq in Eu. subst u. cbn [pc_ok pcq cur_op app wf spec_m] in *.
+    assert (EP : run_of s ++ q = []) by (destruct (run_of s ++ q); [reflexivity|discriminate]).
+    apply app_eq_nil in EP. destruct EP as [Er Eq]. subst q.
+    rewrite dead_eq. projs. rewrite Hal.
+    assert (Hl : d_has k l = true).
+    { specialize (H1 k). rewrite Er, Hpc, !nload_nil in H1. cbn [app b2n] in H1. rewrite ?nload_nil in H1.
+      destruct (d_has k l); [reflexivity|cbn [b2n] in H1; lia]. }
+    unfold d_has in Hl. destruct (d_get k l) as [v0|] eqn:Eg; [|discriminate].
+    unfold set_loaded_waiting. projs. rewrite do_put_alive by exact Hal.
+    rewrite space_when_empty by reflexivity.
+    unfold continue, finish, enqueue, set_pc. projs. rewrite Er in *. cbn [app] in *.
+    exists (d_set k v m). projs. rewrite Er. cbn [pcq cur_op pc_ok app length]. splits9.
+    + reflexivity.
+    + exact Hal.
+    + intros k'. apply (apply_task_cong (TSave k v) disk m). exact H0.
+    + intros k'. specialize (H1 k'). rewrite nload_nil in *. rewrite nload_one. cbn [is_load b2n].
+      rewrite d_has_set. destruct (k' =? k) eqn:E; cbn [orb]; [|exact H1].
+      replace k' with k in * by lia. unfold d_has in H1. rewrite Eg in H1. exact H1.
+    + cbn [loads_ok load_cond]. tauto.
+    + intros k' v' Hg Hh. destruct (Z.eq_dec k' k) as [->|Hne].
+      * rewrite d_get_set_eq in *. exact Hg.
+      * rewrite d_get_set_neq in * by exact Hne. rewrite d_has_set in Hh.
+        destruct (k' =? k) eqn:E; [lia|]. apply H3; assumption.
+    + exact I.
+    + apply (J_step m (SSave k v) prog outs prog0 TOk HJ). reflexivity.
+    + exact Hwf.
+Qed.
+
+Lemma step_LInv qmax prog0 st c : LInv prog0 st -> LInv prog0 (lts_step qmax None st c).
+Proof.
+  intros H. unfold lts_step. destruct c.
+  - destruct (caller_step qmax st) as [st'|] eqn:E; [|exact H]. eapply caller_LInv; eassumption.
+  - destruct (worker_step None st) as [st'|] eqn:E; [|exact H]. eapply worker_LInv; eassumption.
+Qed.
+
+Lemma run_LInv qmax prog0 sched : forall st, LInv prog0 st -> LInv prog0 (lts_run qmax None sched st).
+Proof.
+  unfold lts_run. induction sched as [|c t IH]; intros st H; cbn [fold_left]; [exact H|].
+  apply IH. apply step_LInv. exact H.
+Qed.
+
+(* for EVERY schedule: without a disk failure the worker never dies, and what the caller has got back
+   so far is exactly what a key-value store returns for the operations finished so far *)
+Lemma threaded_linearizable : forall qmax prog sched, wf [] prog = true ->
+  let st := lts_run qmax None sched (init prog) in
+  dead st = false /\
+  rev (t_outs st) = firstn (length (t_outs st)) (spec_outs [] prog) /\
+  (caller_finished st = true -> rev (t_outs st) = spec_outs [] prog).
+Proof.
+  intros qmax prog sched Hwf st.
+  assert (H : LInv prog st) by (apply run_LInv, LInv_init; exact Hwf).
+  destruct H as (m & _ & Hal & _ & _ & _ & _ & _ & HJ & _).
+  split; [rewrite dead_eq; exact Hal|]. split.
+  - rewrite <- HJ, <- rev_length, firstn_app, firstn_all, Nat.sub_diag. cbn [firstn]. rewrite app_nil_r. reflexivity.
+  - unfold caller_finished. destruct (t_pc st) eqn:E1; try discriminate.
+    destruct (t_prog st) eqn:E2; try discriminate. intros _.
+    cbn [cur_op app spec_outs] in HJ. rewrite app_nil_r in HJ. exact HJ.
+Qed.
+
+(* what the key-value specification means: a load returns the latest value saved under the key *)
+Lemma spec_outs_app a : forall m b,
+  spec_outs m (a ++ b) = spec_outs m a ++ spec_outs (fold_left spec_m a m) b.
+Proof.
+  induction a as [|op t IH]; intros m b; cbn [app spec_outs fold_left]; [reflexivity|].
+  rewrite IH. reflexivity.
+Qed.
+
+Lemma spec_no_write k mid : forallb (fun op => negb (s_writes k op)) mid = true ->
+  forall m, d_get k (fold_left spec_m mid m) = d_get k m.
+Proof.
+  induction mid as [|op t IH]; intros H m; cbn [fold_left]; [reflexivity|].
+  cbn [forallb] in H. apply andb_true_iff in H. destruct H as [H1 H2]. rewrite (IH H2).
+  destruct op as [k'|k'|k' v'|k']; cbn [spec_m s_writes negb] in *; try reflexivity.
+  - apply d_get_set_neq. destruct (k' =? k) eqn:E; [discriminate|lia].
+  - rewrite d_get_del. destruct (k =? k') eqn:E; [|reflexivity].
+    destruct (k' =? k) eqn:E2; [discriminate|lia].
+Qed.
+
+Lemma spec_latest_save pre k v mid : forallb (fun op => negb (s_writes k op)) mid = true ->
+  last (spec_outs [] (pre ++ SSave k v :: mid ++ [SLoad k])) TOk = TVal v.
+Proof.
+  intros H. rewrite spec_outs_app. cbn [spec_outs]. rewrite spec_outs_app. cbn [spec_outs spec_out].
+  rewrite (spec_no_write k mid H). cbn [spec_m]. rewrite d_get_set_eq.
+  rewrite app_comm_cons, app_assoc. apply last_last.
+Qed.
+
+(* ------------------------------------------------------------------ no deadlock, with or without failures *)
+Definition Binv (st : tstate) : Prop :=
+  t_unfinished st = length (pending st) /\
+  (t_status st = WDead ->
+   match t_pc st with PPut _ _ | PLoadJ _ | PSaveJ _ _ => t_queue st = [] | _ => True end).
+
+Definition blocking (p : pcs) : bool :=
+  match p with PPut _ _ | PLoadJ _ | PSaveJ _ _ => true | _ => false end.
+
+Lemma Binv_init prog : Binv (init prog).
+Proof. split; [reflexivity|]. intros H. discriminate. Qed.
+
+Lemma do_put_shape qmax st t c :
+  (dead st = true -> do_put qmax st t c = finish st TWorkerDied) /\
+  (t_status (do_put qmax st t c) = t_status st) /\
+  (t_unfinished (do_put qmax st t c) = length (pending (do_put qmax st t c)) <-> t_unfinished st = length (pending st)).
+Proof.
+  unfold do_put. split; [intros ->; reflexivity|].
+  destruct (dead st); [split; [reflexivity|]; unfold pending; cbn; tauto|].
+  destruct (has_space qmax st); [|split; [reflexivity|]; unfold pending; cbn; tauto].
+  destruct c; (split; [reflexivity|]); unfold pending; cbn; rewrite app_assoc, app_length; cbn [length]; lia.
+Qed.
+
+Lemma caller_Binv qmax st st' : Binv st -> caller_step qmax st = Some st' -> Binv st'.
+Proof.
+  intros [HU HD]. unfold caller_step.
+  assert (Hfin : forall o, Binv (finish st o)).
+  { intros o. split; [exact HU|]. cbn. tauto. }
+  destruct (t_pc st) as [|t c|k|k|k v] eqn:Epc.
+  - destruct (t_prog st) as [|op rest] eqn:Epr; [discriminate|]. intros E. injection E as <-.
+    set (st1 := set_prog st rest).
+    assert (HU1 : t_unfinished st1 = length (pending st1)) by exact HU.
+    assert (Hst : t_status st1 = t_status st) by reflexivity.
+    assert (Hput : forall st2 t c, t_status st2 = t_status st -> t_unfinished st2 = length (pending st2) ->
+                   Binv (do_put qmax st2 t c)).
+    { intros st2 t c Hs Hu. destruct (do_put_shape qmax st2 t c) as (P1 & P2 & P3). split; [apply P3; exact Hu|].
+      rewrite P2. intros Hd. rewrite P1 by (unfold dead; rewrite Hd; reflexivity). cbn. exact I. }
+    destruct op as [k|k|k v|k]; unfold start_op.
+    + destruct (negb _ && negb _); [apply Hput; [reflexivity|exact HU1]|].
+      split; [exact HU1|]. cbn. tauto.
+    + destruct (_ || _); [split; [exact HU1|]; cbn; tauto|]. apply Hput; [reflexivity|exact HU1].
+    + destruct (ks_mem k (t_waiting st1)); [|apply Hput; [reflexivity|exact HU1]].
+      destruct (dead st1) eqn:Ed; [split; [exact HU1|]; cbn; tauto|].
+      split; [exact HU1|]. cbn [set_pc t_status t_pc]. intros Hd. unfold dead in Ed. rewrite Hd in Ed. discriminate.
+    + apply Hput; [reflexivity|exact HU1].
+  - destruct (has_space qmax st); [|discriminate]. intros E. injection E as <-.
+    split.
+    + destruct c; unfold pending; cbn; unfold pending in HU; rewrite app_assoc, app_length; cbn [length]; lia.
+    + destruct c; cbn; tauto.
+  - intros E. injection E as <-.
+    destruct (d_has k (t_loaded st)).
+    + unfold finish_load. destruct (d_get k (t_loaded st)); [|apply Hfin].
+      split; [exact HU|]. cbn. tauto.
+    + destruct (dead st) eqn:Ed; [apply Hfin|].
+      split; [exact HU|]. cbn [set_pc t_status t_pc]. intros Hd. unfold dead in Ed. rewrite Hd in Ed. discriminate.
+  - destruct (Nat.eqb (t_unfinished st) 0); [|discriminate]. intros E. injection E as <-.
+    destruct (dead st); [apply Hfin|].
+    unfold finish_load. destruct (d_get k (t_loaded st)); [|apply Hfin].
+    split; [exact HU|]. cbn. tauto.
+  - destruct (Nat.eqb (t_unfinished st) 0); [|discriminate]. intros E. injection E as <-.
+    destruct (dead st) eqn:Ed; [apply Hfin|].
+    destruct (d_get k (t_loaded st)); [|apply Hfin].
+    destruct (do_put_shape qmax (set_loaded_waiting st (d_set k v (t_loaded st)) (t_waiting st)) (TSave k v) KDone)
+      as (P1 & P2 & P3).
+    split; [apply P3; exact HU|]. rewrite P2. cbn [set_loaded_waiting t_status]. intros Hd.
+    unfold dead in Ed. rewrite Hd in Ed. discriminate.
+Qed.
+
+Definition mu (st : tstate) : nat :=
+  3 * length (t_queue st) +
+  match t_status st with WIdle => 0 | WRun _ => 2 | WDying => 1 | WDead => 0 end.
+
+Lemma worker_Binv fail_at st st' : Binv st -> worker_step fail_at st = Some st' ->
+  Binv st' /\ (mu st' < mu st)%nat /\ t_pc st' = t_pc st /\ t_prog st' = t_prog st.
+Proof.
+  intros [HU HD]. unfold worker_step, Binv, mu, pending in *.
+  destruct (t_status st) as [|t| |] eqn:Es.
+  - destruct (t_queue st) as [|t q] eqn:Eq; [discriminate|]. intros E. injection E as <-.
+    cbn [set_worker t_status t_queue t_unfinished t_pc t_prog app length] in *.
+    split; [split; [exact HU|discriminate]|]. split; [lia|]. split; reflexivity.
+  - intros E. injection E as <-. cbn [app length] in HU.
+    destruct (match fail_at with Some n => Nat.eqb n (t_started st) | None => false end).
+    + cbn [set_worker t_status t_queue t_unfinished t_pc t_prog app length].
+      split; [split; [lia|discriminate]|]. split; [lia|]. split; reflexivity.
+    + destruct (exec_task (t_disk st) (t_loaded st) t) as [[d l]|];
+        cbn [set_worker t_status t_queue t_unfinished t_pc t_prog app length];
+        (split; [split; [lia|discriminate]|]); (split; [lia|]); split; reflexivity.
+  - destruct (t_queue st) as [|t q] eqn:Eq; intros E; injection E as <-;
+      cbn [set_worker t_status t_queue t_unfinished t_pc t_prog app length] in *.
+    + split; [split; [exact HU|]|]. { intros _. destruct (t_pc st); tauto. }
+      split; [lia|]. split; reflexivity.
+    + split; [split; [lia|discriminate]|]. split; [lia|]. split; reflexivity.
+  - discriminate.
+Qed.
+
+(* a blocked caller can always be helped by the worker; a terminated worker blocks nobody *)
+Lemma progress qmax fail_at st : Binv st -> caller_finished st = false ->
+  caller_step qmax st = None -> worker_step fail_at st <> None.
+Proof.
+  intros [HU HD] Hf Hc. unfold caller_finished, caller_step, worker_step, pending in *.
+  destruct (t_pc st) as [|t c|k|k|k v] eqn:Epc.
+  - destruct (t_prog st); discriminate.
+  - unfold has_space in Hc.
+    destruct (Nat.eqb qmax 0 || Nat.ltb (length (t_queue st)) qmax) eqn:Esp; [discriminate|].
+    apply orb_false_iff in Esp. destruct Esp as [E1 E2].
+    apply Nat.eqb_neq in E1. apply Nat.ltb_ge in E2.
+    destruct (t_status st) eqn:Es; try discriminate.
+    + destruct (t_queue st); [cbn [length] in E2; lia|discriminate].
+    + destruct (t_queue st); discriminate.
+    + rewrite (HD eq_refl) in E2. cbn [length] in E2. lia.
+  - discriminate.
+  - destruct (Nat.eqb (t_unfinished st) 0) eqn:Eu; [discriminate|]. apply Nat.eqb_neq in Eu.
+    destruct (t_status st) eqn:Es; try discriminate.
+    + destruct (t_queue st); [cbn in HU; lia|discriminate].
+    + destruct (t_queue st); discriminate.
+    + rewrite (HD eq_refl) in HU. cbn in HU. lia.
+  - destruct (Nat.eqb (t_unfinished st) 0) eqn:Eu; [discriminate|]. apply Nat.eqb_neq in Eu.
+    destruct (t_status st) eqn:Es; try discriminate.
+    + destruct (t_queue st); [cbn in HU; lia|discriminate].
+    + destruct (t_queue st); discriminate.
+    + rewrite (HD eq_refl) in HU. cbn in HU. lia.
+Qed.
+
+Lemma no_deadlock_aux qmax fail_at : forall m st, Binv st -> (mu st <= m)%nat -> caller_finished st = false ->
+  exists n, (n <= m)%nat /\ caller_step qmax (iter_worker fail_at n st) <> None.
+Proof.
+  induction m as [|m IH]; intros st HB Hm Hf.
+  - exists 0%nat. split; [lia|]. cbn [iter_worker]. intros Hc.
+    destruct (worker_step fail_at st) as [st'|] eqn:Ew; [|exact (progress qmax fail_at st HB Hf Hc Ew)].
+    destruct (worker_Binv fail_at st st' HB Ew) as (_ & Hlt & _). lia.
+  - destruct (caller_step qmax st) eqn:Ec.
+    + exists 0%nat. split; [lia|]. cbn [iter_worker]. rewrite Ec. discriminate.
+    + destruct (worker_step fail_at st) as [st'|] eqn:Ew; [|exfalso; exact (progress qmax fail_at st HB Hf Ec Ew)].
+      destruct (worker_Binv fail_at st st' HB Ew) as (HB' & Hlt & Hp1 & Hp2).
+      destruct (IH st' HB') as (n & Hn & Hs); [lia| |].
+      { unfold caller_finished in *. rewrite Hp1, Hp2. exact Hf. }
+      exists (S n). split; [lia|]. cbn [iter_worker]. rewrite Ew. exact Hs.
+Qed.
+
+Lemma run_Binv qmax fail_at sched : forall st, Binv st -> Binv (lts_run qmax fail_at sched st).
+Proof.
+  unfold lts_run. induction sched as [|c t IH]; intros st H; cbn [fold_left]; [exact H|].
+  apply IH. unfold lts_step. destruct c.
+  - destruct (caller_step qmax st) eqn:E; [|exact H]. eapply caller_Binv; eassumption.
+  - destruct (worker_step fail_at st) eqn:E; [|exact H]. eapply worker_Binv; eassumption.
+Qed.
+
+(* after ANY schedule, with or without a failing task, for every program (well-formed or not):
+   a caller that is not finished can move after a bounded number of worker steps *)
+Lemma no_deadlock : forall qmax fail_at prog sched,
+  let st := lts_run qmax fail_at sched (init prog) in
+  caller_finished st = false ->
+  exists n, (n <= 3 * length (t_queue st) + 2)%nat /\
+            caller_step qmax (iter_worker fail_at n st) <> None.
+Proof.
+  intros qmax fail_at prog sched st Hf.
+  apply no_deadlock_aux; [apply run_Binv, Binv_init| |exact Hf].
+  unfold mu. destruct (t_status st); lia.
+Qed.
+
+(* once the worker thread is gone nothing ever blocks *)
+Lemma dead_worker_never_blocks : forall qmax fail_at prog sched,
+  let st := lts_run qmax fail_at sched (init prog) in
+  t_status st = WDead -> caller_finished st = false -> caller_step qmax st <> None.
+Proof.
+  intros qmax fail_at prog sched st Hd Hf Hc.
+  apply (progress qmax fail_at st (run_Binv qmax fail_at sched _ (Binv_init prog)) Hf Hc).
+  unfold worker_step. rewrite Hd. reflexivity.
+Qed.
+
+(* ... and every operation that needs the worker raises WorkerDied at once *)
+Lemma dead_worker_raises : forall qmax st op, dead st = true -> needs_worker st op = true ->
+  t_outs (start_op qmax st op) = TWorkerDied :: t_outs st /\ t_pc (start_op qmax st op) = PIdle.
+Proof.
+  intros qmax st op Hd Hn. unfold start_op, needs_worker in *.
+  destruct op as [k|k|k v|k].
+  - rewrite Hn. unfold do_put, dead in *. cbn [set_loaded_waiting t_status]. rewrite Hd. split; reflexivity.
+  - apply andb_true_iff in Hn. destruct Hn as [H1 H2]. apply negb_true_iff in H1. apply negb_true_iff in H2.
+    rewrite H1, H2. cbn [orb]. unfold do_put, dead in *. cbn [set_loaded_waiting t_status]. rewrite Hd. split; reflexivity.
+  - destruct (ks_mem k (t_waiting st)); [rewrite Hd; split; reflexivity|].
+    unfold do_put. rewrite Hd. split; reflexivity.
+  - unfold do_put. rewrite Hd. split; reflexivity.
 Qed.
